@@ -9,7 +9,7 @@ from fractions import Fraction
 
 from ..model import schwab as sm
 from ..probe import probe
-from ..util import rng_for, sha, fr, d as pdate, ZERO
+from ..util import cap_viols, rng_for, sha, fr, d as pdate, ZERO
 from . import ledger_core as lc
 
 PROP = "C18"
@@ -246,7 +246,7 @@ def run_lib(desc):
                               "detail": "; ".join(diffs[:3]), "case": {"op": "convert", "rows": rows, "awards": awards}})
             else:
                 cnt["chunked_reports_equal"] += 1
-    return {"evaluations": len(reqs), "nontrivial_hashes": hashes, "counters": cnt, "violations": viols[:25], "samples": samples}
+    return {"evaluations": len(reqs), "nontrivial_hashes": hashes, "counters": cnt, "violations": cap_viols(viols), "samples": samples}
 
 
 def run_cli(desc):
@@ -291,7 +291,7 @@ def run_cli(desc):
                           "detail": r2["stderr"][:200], "case": case})
         elif r2["exit"] == 0:
             cnt["cli_reports_on_converted_output"] += 1
-    return {"evaluations": cnt["cli_conversions"], "nontrivial_hashes": hashes, "counters": cnt, "violations": viols[:20], "samples": []}
+    return {"evaluations": cnt["cli_conversions"], "nontrivial_hashes": hashes, "counters": cnt, "violations": cap_viols(viols), "samples": []}
 
 
 def run_shard(desc):
